@@ -265,6 +265,7 @@ runner!(run_btree, BTreeMap<Value, i32>, proj_b);
 fn main() {
     let args = parse_args();
     let pool = pool();
+    silence_panics();
     let mut rng = Rng::new(args.seed ^ 0x1a9e);
     let mut w = CaseWriter::new(
         "From SwimV Require Import Model.MapLane.\nOpen Scope N_scope.",
@@ -286,7 +287,10 @@ fn main() {
             })
             .collect();
         let ops = &ops[..];
-        let outs = if backing == "hash" { run_hash(&pool, ops) } else { run_btree(&pool, ops) };
+        // a panic inside the implementation: the case is reported with no outputs at all, which
+        // neither the model nor the oracle accepts
+        let outs = catch(std::panic::AssertUnwindSafe(|| if backing == "hash" { run_hash(&pool, ops) } else { run_btree(&pool, ops) }))
+            .unwrap_or_else(|msg| vec![format!("LOMap [] (* PANIC {} *)", msg.replace("*)", "* )"))]);
         let term = format!("({}, {})", coq_list(ops.iter().map(|o| o.coq())), coq_list(outs.iter().cloned()));
         let human = format!("lane[{}] ops={:?} impl={:?}", backing, ops, outs);
         *kinds.entry(backing.into()).or_default() += 1;
